@@ -13,6 +13,13 @@ use crate::{
 
 const STACK_LIMIT: usize = 32;
 
+/// Expressions and IF statements are evaluated by recursive descent, so the
+/// nesting depth of parentheses, subscripts, function arguments and chained
+/// `IF .. THEN IF ..` has to be bounded or a hostile line exhausts the native
+/// stack (which aborts the process instead of raising a BASIC error). Applesoft
+/// BASIC reports OUT OF MEMORY for deeply nested parentheses too.
+const NESTING_LIMIT: usize = 64;
+
 #[derive(Debug, Default, Copy, Clone, PartialEq)]
 pub enum ProgramLine {
     #[default]
@@ -100,6 +107,7 @@ pub struct Program {
     loop_stack: Vec<LoopInfo>,
     data_iterator: Option<DataIterator>,
     functions: HashMap<Symbol, FunctionDefinition>,
+    nesting_depth: usize,
 }
 
 impl Program {
@@ -172,6 +180,20 @@ impl Program {
             }
             None => None,
         }
+    }
+
+    /// Must be called before recursing into a nested expression or statement, and
+    /// paired with `leave_nested_evaluation` once it has been evaluated.
+    pub fn enter_nested_evaluation(&mut self) -> Result<(), TracedInterpreterError> {
+        if self.nesting_depth >= NESTING_LIMIT {
+            return Err(OutOfMemoryError::StackOverflow.into());
+        }
+        self.nesting_depth += 1;
+        Ok(())
+    }
+
+    pub fn leave_nested_evaluation(&mut self) {
+        self.nesting_depth = self.nesting_depth.saturating_sub(1);
     }
 
     pub fn break_at_current_location(&mut self) {
